@@ -48,6 +48,10 @@ ARG_KEYS = ['self', 'other', 'function', 'value', 'args', 'relabels']
 SHADOW_KEYS = ['keys', 'items', 'copy', 'get', 'update', 'values', 'pop', 'relabel', 'rename', 'apply', 'do']
 
 
+# the callables handed to `d.relabel(f)` (the Lean driver holds the same five under these names)
+REL_FNS = {'upper': str.upper, 'dbl': lambda k: k * 2, 'const': lambda k: 'z', 'first': lambda k: k[:1], 'pre': lambda k: 'q' + k}
+
+
 def _cls(n):
     from pyg_base import Dict, dictattr
     global MyDA, MyDict
@@ -58,6 +62,12 @@ def _cls(n):
         class MyDict(Dict):         # inherits Dict.__add__ = tree_update (review s2 F1; Dict's own docstring uses such a subclass)
             pass
     return {0: dict, 1: Dict, 2: dictattr, 3: MyDA, 4: MyDict}[n]
+
+
+def rng_free_rename_differs(d, k, kw, res):
+    """`rename` is documented as identical to `relabel`"""
+    other = d.rename(**kw) if k is None else d.rename(k, **kw)
+    return type(other) is not type(res) or list(other.items()) != list(res.items())
 
 
 def encd(cls, d):
@@ -191,7 +201,7 @@ def rand_keysel(rng, d):
 def gen_da(rng):
     cls, d = rand_da(rng)
     D = encd(cls, d)
-    op = rng.choice(['d.sub', 'd.sub', 'd.and', 'd.and', 'd.getl', 'd.gett', 'd.get', 'd.add', 'd.add', 'd.relabel', 'd.keys'])
+    op = rng.choice(['d.sub', 'd.sub', 'd.and', 'd.and', 'd.getl', 'd.gett', 'd.get', 'd.add', 'd.add', 'd.relabel', 'd.relabel', 'd.keys'])
     ks = rand_keysel(rng, d)
     if op == 'd.sub' and rng.random() < 0.25:
         # d - (k1, .., kn): a tuple is a PATH into the nested mappings; the key is deleted in a COPY of the branch (review s2 F3: the
@@ -231,6 +241,32 @@ def gen_da(rng):
         if cls in (1, 4) and any(isinstance(v, dict) for v in o.values()):
             tag = ('d.add-Dict-merge' if cls == 1 else 'd.add-DictSubclass-merge') if any(isinstance(d.get(k), dict) and isinstance(v, dict) for k, v in o.items()) else 'd.add-Dict-branch'
             return dict(tag=tag + ('-empty' if any(_has_empty(v) for v in o.values()) else ''), lines=['(c16 d.add %s %s)' % (D, arg)])
+    elif op == 'd.relabel' and rng.random() < 0.45:
+        # every documented form of the POSITIONAL argument (round k2; model DA.relabelA / relabelMap): a callable, a prefix / suffix /
+        # plain string, a dict, a list of new names (right / wrong length, one name), each optionally with keywords on top
+        form = rng.choice(['fn', 'fn', 'affix', 'affix', 'dict', 'names', 'none'])
+        if form == 'fn':
+            name = rng.choice(sorted(REL_FNS))
+            a, tag = '(FN %s)' % name, 'fn-' + name
+        elif form == 'affix':
+            sfx = rng.choice(['x_', '_x', 'x', '_', '_x_', '', 'A_', '_b'])
+            a, tag = enc(sfx), 'affix-' + ('suffix' if sfx.startswith('_') else 'prefix' if sfx.endswith('_') else 'plain')
+        elif form == 'dict':
+            olds = rng.sample(sorted(set(KEYS) | set(d)), rng.choice([0, 1, 2]))
+            m = {k: rng.choice(['A', 'B', 'C'] + list(d)[:1]) for k in olds}
+            a, tag = enc(m), 'dict'
+        elif form == 'names':
+            n = rng.choice([len(d), len(d), 1, max(len(d) - 1, 0), len(d) + 1])
+            names = [rng.choice(['A', 'B', 'C', 'D2', 'E', 'x_', '_y'] + list(d)[:1]) for _ in range(n)]
+            a, tag = enc(names), 'names-' + ('fit' if n == len(d) and n != 1 else 'one' if n == 1 else 'misfit')
+        else:
+            a, tag = 'N', 'none'
+        kw = {}
+        if rng.random() < 0.4 or form == 'none':
+            for k in rng.sample(sorted(set(KEYS) | set(d)), rng.choice([1, 2])):
+                kw[k] = rng.choice(['K1', 'K2'] + list(d)[-1:])
+            tag += '+kw'
+        return dict(tag='d.relabel-' + tag, lines=['(c16 d.relabela %s %s %s)' % (D, a, enc(kw))])
     elif op == 'd.relabel':
         # (stateless: also `keys`, the first parameter of the module-level relabel(keys, ...) every d.relabel goes through)
         if rng.random() < 0.3:
@@ -649,8 +685,13 @@ def run_line(state, sx):
         cls = _cls(n)
         d = cls({proto.unhex(kv[0]): proto.dec(kv[1]) for kv in args[0][2:]})
         snap = _snap(d)
-        k = proto.dec(args[1]) if len(args) > 1 else None
-        ksnap = _copy.deepcopy(k)
+        if op == 'd.relabela':
+            k = REL_FNS[args[1][1]] if isinstance(args[1], list) and args[1][0] == 'FN' else proto.dec(args[1])
+            kw = proto.dec(args[2])
+            ksnap = k if callable(k) else _copy.deepcopy(k)
+        else:
+            k = proto.dec(args[1]) if len(args) > 1 else None
+            ksnap = _copy.deepcopy(k)
         if op == 'd.sub':
             res = d - k
         elif op == 'd.and':
@@ -664,6 +705,10 @@ def run_line(state, sx):
                 return bad
         elif op == 'd.relabel':
             res = d.relabel(**k)
+        elif op == 'd.relabela':
+            res = d.relabel(**kw) if k is None else d.relabel(k, **kw)
+            if rng_free_rename_differs(d, k, kw, res):
+                return 'rename differs from relabel'
         elif op == 'd.keys':
             res = d.keys()
             if type(res) is not ulist:
